@@ -15,7 +15,7 @@ import (
 )
 
 type c03case struct {
-	Shape         string
+	Shape           string
 	PX, PY, E, R, S string
 }
 
